@@ -6,7 +6,8 @@ for d in seeded/*/; do n=$(basename $d)
   while read -r line; do
     echo "$line"
     rc=$(echo "$line" | sed -n 's/.* rc=\([0-9]*\) .*/\1/p')
-    case $n in benign-*) [ "$rc" = "0" ] || bad=$((bad+1));; *) [ "$rc" = "1" ] || bad=$((bad+1));; esac
+    want=$(python3 -c "import json; print(json.load(open('seeded/$n/meta.json')).get('expected_rc', 0 if '$n'.startswith('benign-') else 1))")
+    [ "$rc" = "$want" ] || { bad=$((bad+1)); echo "  ^^^ UNEXPECTED (wanted rc=$want)"; }
   done < <(tools/fixture_eval.sh $n)
 done
 echo "UNEXPECTED=$bad"
